@@ -238,6 +238,27 @@ CLAIMS = {
              "fields written by start_update are part of start_crash_free (C08). With force-full-r the theorem needs "
              "RowsDefined for the delivered indices (C10's termination is proved without force-full-r).",
         design_ref="DESIGN.md section 6 (C01)"),
+    "C04": dict(
+        text="Proved in Lean over the L2 model for EVERY device state — i.e. at every operation index and every torn "
+             "outcome, because the device state carries the crash point (crashAt with an optional tear) and the flash "
+             "after the run is the replay of the logged operations: the word-level invariant CVW (every slot whose kind "
+             "word is firmware and whose external-status word is the Complete code has fitting geometry words, in-range "
+             "data and a matching CRC) holds on a blank device and is preserved by start_update, handle_segment, "
+             "check_and_mark_done, try_recover, cancel_all, the status marks and the read-only calls (start_preserves … "
+             "status_calls_preserve, session_preserves, start_crash_prefix); CVW implies CompleteValid (every header that "
+             "parses as completed firmware passes Firmware.isValidFirmware); check_gate_L2 (Complete is programmed only "
+             "after the CRC test passed on the same flash), torn_complete_is_complete (a torn external-status program "
+             "reads Complete only if it is the Complete code), clear_kills_header_first, bl_designates_valid / "
+             "bl_call_designates_valid (the bootloader query only designates validating slots), valid_bridge (the "
+             "session model's validation = the C14 model's). Panic-freedom of the post-reboot calls is C17's robust_calls. "
+             "On the real code: crash and torn-write enumeration inside every operation kind with post-reboot sweep.",
+        note="Hypotheses: slot size >= 17412, erase block >= 28 bytes, at least 2 slots. The clause 'if written by the "
+             "interrupted session, equals the transmitted image' is checked by the harness (sweep compares the session's "
+             "slot with the image) and follows from C01/C06 outside the two known crash windows; inside them only the CRC "
+             "protects the image (CRC is not injective), so equality is not claimed there. Model-level observations: "
+             "CompleteValid alone is not preserved by the status marks (hence the word-level invariant); "
+             "check_and_mark_done does not check the header kind (the session invariant supplies it).",
+        design_ref="DESIGN.md section 6 (C04)"),
 }
 
 _TODO = "check not built yet in this session (planned in DESIGN.md section 6); not believed to be outside the technique"
